@@ -43,15 +43,15 @@ func runC20(c *an.Ctx) {
 		// Hash() = sha256(sha256(serializationUnsigned))
 		uns := callsIn(hashFn, funcObj(unsigned))
 		sums := 0
-		for _, k := range an.Calls(hashFn) {
-			if f := k.Common().StaticCallee(); f != nil && f.String() == "crypto/sha256.Sum256" {
-				sums++
-			}
-		}
 		var others []string
-		for _, k := range an.Calls(hashFn) {
-			if f := k.Common().StaticCallee(); f != nil && strings.HasSuffix(f.Signature.String(), "common.ZeroCopySink)") && f != unsigned {
-				others = append(others, f.Name())
+		for _, g := range an.InlineReach(hashFn) {
+			for _, k := range an.Calls(g) {
+				if f := k.Common().StaticCallee(); f != nil && f.String() == "crypto/sha256.Sum256" {
+					sums++
+				}
+				if f := k.Common().StaticCallee(); f != nil && strings.HasSuffix(f.Signature.String(), "common.ZeroCopySink)") && f != unsigned {
+					others = append(others, f.Name())
+				}
 			}
 		}
 		c.Check(len(uns) == 1 && sums == 2 && len(others) == 0, "frame|Header.Hash|hashes-unsigned-serialization", "Header.Hash is the double SHA-256 of serializationUnsigned and nothing else", c.P.Rel(hashFn.Pos()), fmt.Sprintf("unsigned calls %d, sha256 calls %d, other writers %v", len(uns), sums, others))
@@ -63,17 +63,27 @@ func runC20(c *an.Ctx) {
 	if bd == nil || txHash == nil || merkle == nil {
 		return
 	}
-	hashCalls := an.CallsTo(bd, txHash)
+	hashCalls := an.CallsToReach(bd, txHash)
 	c.Check(len(hashCalls) == 1, "shape|Block.Deserialization|one-tx-hash", "each decoded transaction is hashed once", c.P.Rel(bd.Pos()), fmt.Sprintf("%d calls", len(hashCalls)))
 	if len(hashCalls) != 1 {
 		return
 	}
 	hv := hashCalls[0].Value()
+	// the function that holds the decoding loop: Deserialization itself or the private helper the loop was moved to
+	root := bd
+	bd = hashCalls[0].Parent()
 	// duplicates: lookup in a fresh map keyed by this hash
 	var set ssa.Value
 	dup := &an.Guard{Name: "hash already seen", FailValue: an.ATrue, MatchValue: func(v ssa.Value) bool {
+		// seen[h] on a set (map to bool) or the presence bit of `_, dup := seen[h]`
 		l, ok := v.(*ssa.Lookup)
-		if !ok || l.CommaOk {
+		if ex, isEx := v.(*ssa.Extract); isEx && ex.Index == 1 {
+			l, ok = ex.Tuple.(*ssa.Lookup)
+			ok = ok && l.CommaOk
+		} else if ok && l.CommaOk {
+			return false
+		}
+		if !ok {
 			return false
 		}
 		if _, isMap := l.X.Type().Underlying().(*types.Map); !isMap {
@@ -120,20 +130,27 @@ func runC20(c *an.Ctx) {
 	}
 	// root comparison
 	var rootCmp ssa.Value
-	for _, v := range an.FindValues(bd, func(v ssa.Value) bool {
-		b, ok := v.(*ssa.BinOp)
-		if !ok || b.Op != token.NEQ {
-			return false
+	bd = root
+	for _, g := range an.InlineReach(bd) {
+		for _, v := range an.FindValues(g, func(v ssa.Value) bool {
+			b, ok := v.(*ssa.BinOp)
+			if !ok || (b.Op != token.NEQ && b.Op != token.EQL) {
+				return false
+			}
+			return strings.HasSuffix(an.AccessPath(b.X), ".TransactionsRoot") || strings.HasSuffix(an.AccessPath(b.Y), ".TransactionsRoot")
+		}) {
+			rootCmp = v
 		}
-		return strings.HasSuffix(an.AccessPath(b.X), ".TransactionsRoot") || strings.HasSuffix(an.AccessPath(b.Y), ".TransactionsRoot")
-	}) {
-		rootCmp = v
 	}
 	if rootCmp == nil {
 		c.Violate("guard|Block.Deserialization|tx-root", "a block is accepted only if the header's transaction root matches the decoded transactions", c.P.Rel(bd.Pos()), "comparison with Header.TransactionsRoot not found")
 		return
 	}
-	g := &an.Guard{Name: "root mismatch", FailValue: an.ATrue, MatchValue: func(v ssa.Value) bool { return v == rootCmp }}
+	mismatch := an.ATrue
+	if rootCmp.(*ssa.BinOp).Op == token.EQL {
+		mismatch = an.AFalse
+	}
+	g := &an.Guard{Name: "root mismatch", FailValue: mismatch, MatchValue: func(v ssa.Value) bool { return v == rootCmp }}
 	v := an.Guarded(c.P, bd, []*an.Guard{g}, func(in ssa.Instruction) bool {
 		r, ok := in.(*ssa.Return)
 		if !ok {
@@ -151,7 +168,11 @@ func runC20(c *an.Ctx) {
 	}
 	okRoot := false
 	if call, isC := an.Origin(comp).(*ssa.Call); isC && call.Call.StaticCallee() == merkle {
-		for _, s := range an.AllSources(call.Call.Args[0]) {
+		var srcs []ssa.Value
+		for _, d := range an.Deref(bd, call.Call.Args[0]) {
+			srcs = append(srcs, an.AllSources(d)...)
+		}
+		for _, s := range srcs {
 			if ap, isA := s.(*ssa.Call); isA {
 				if bi, isB := ap.Call.Value.(*ssa.Builtin); isB && bi.Name() == "append" && len(ap.Call.Args) == 2 {
 					// appended element is hv (through the varargs array)
@@ -176,9 +197,11 @@ func runC20(c *an.Ctx) {
 	// every iteration appends both the hash and the transaction
 	txsField := c.P.Field(ct + ".Block.Transactions")
 	appendsTx := false
-	for _, w := range an.DirectFieldWrites(bd) {
-		if w.Field == txsField && w.Kind == "store" {
-			appendsTx = true
+	for _, g := range an.InlineReach(bd) {
+		for _, w := range an.DirectFieldWrites(g) {
+			if w.Field == txsField && w.Kind == "store" {
+				appendsTx = true
+			}
 		}
 	}
 	c.Check(appendsTx, "shape|Block.Deserialization|appends-transactions", "decoded transactions are appended to the block", c.P.Rel(bd.Pos()), "no store to Block.Transactions")
